@@ -294,32 +294,57 @@ def solve_goal(ctx, goal, n_pc, n_side, n_assm, timeout_ms=None, env=None, lemma
     import z3
     total = timeout_ms or GOAL_TIMEOUT_MS
     t0 = time.time()
-    # cheap_only: the quick first attempt; otherwise (second call, after the witness search) a plain attempt with half of the
-    # goal's budget -- a goal that needs 9 s must not depend on the machine being idle during an 8 s first attempt
-    s = _mk_solver(ctx, goal, n_pc, n_assm, min(FIRST_TRY_MS, total) if cheap_only else max(total // 2, min(FIRST_TRY_MS, total)), lemmas)
-    r = str(s.check())
-    if r != 'unknown':
-        return r, (s.model() if r == 'sat' else None), time.time() - t0, s, 0
     if cheap_only:
-        return r, None, time.time() - t0, s, 0
-    # bounded problem over a small domain: bit-blast (sound width inference, see vf/int2bv.py)
-    if env is not None:
+        s = _mk_solver(ctx, goal, n_pc, n_assm, min(FIRST_TRY_MS, total), lemmas)
+        # 1.5 s plain, then the two cheap robust routes (monomial abstraction, bit-blasting of small bounded problems), then plain
+        asserts = list(s.assertions())      # snapshot: the abstraction / bit-blasting routes must see the original assertions
+        s.set('timeout', min(1500, total))
+        r = str(s.check())
+        if r != 'unknown':
+            return r, (s.model() if r == 'sat' else None), time.time() - t0, s, 0
+        if env is not None:
+            if _abstraction_unsat(asserts, env, ctx):
+                return 'unsat', None, time.time() - t0, s, -2
+            from vf import int2bv
+            bounds = {n: (lo, hi - 1) for n, (lo, hi) in env.vars.items()}
+            bounds.update(ctx.aux_bounds)
+            rb, mb, W = int2bv.solve_bv(asserts, bounds, timeout_ms=min(total, 4000))
+            if rb == 'unsat':
+                return 'unsat', None, time.time() - t0, s, -1
+            if rb == 'sat':
+                return 'sat', _DictModel(mb), time.time() - t0, s, -1
+        s = _mk_solver(ctx, goal, n_pc, n_assm, min(FIRST_TRY_MS, total), lemmas)
+        r = str(s.check())
+        return r, (s.model() if r == 'sat' else None), time.time() - t0, s, 0
+    # second call (after the quick attempt and the witness search): portfolio in sequence -- bit-blasting for bounded
+    # problems, case split over small-domain variables, and finally a long plain attempt.
+    s = _mk_solver(ctx, goal, n_pc, n_assm, max(total // 2, min(FIRST_TRY_MS, total)), lemmas)
+
+    def bv_route(ms):
         from vf import int2bv
         bounds = {n: (lo, hi - 1) for n, (lo, hi) in env.vars.items()}
         bounds.update(ctx.aux_bounds)
-        rb, mb, W = int2bv.solve_bv(list(s.assertions()), bounds, timeout_ms=min(total, 20000))
+        rb, mb, W = int2bv.solve_bv(list(s.assertions()), bounds, timeout_ms=ms)
         if rb == 'unsat':
             return 'unsat', None, time.time() - t0, s, -1
         if rb == 'sat':
             return 'sat', _DictModel(mb), time.time() - t0, s, -1
-    # case split
+        return None
+    if env is not None:
+        got = bv_route(min(total, 5000))
+        if got:
+            return got
+    # case split: every small-domain variable of the goal, plus one factor of a nonlinear product with at most 256 values
+    # (each case is then linear in that factor: fast and insensitive to machine speed)
     doms = {}
+    nl = set()
     if env is not None:
         conj = z3.And(*ctx.pc[:n_pc], *ctx.side, goal)
         names = {str(v) for v in _free_vars(conj)}
         for n, (lo, hi) in env.vars.items():
             if n in names and hi - lo <= 4:
                 doms[n] = (lo, hi)
+        nl = {n for n in _nonlinear_vars(conj) if n in env.vars and n not in doms}
     order = sorted(doms, key=lambda n: doms[n][1] - doms[n][0])
     chosen, ncases = [], 1
     for n in order:
@@ -328,27 +353,38 @@ def solve_goal(ctx, goal, n_pc, n_side, n_assm, timeout_ms=None, env=None, lemma
             break
         chosen.append(n)
         ncases *= k
-    if not chosen:
-        s = _mk_solver(ctx, goal, n_pc, n_assm, total, lemmas)
-        r = str(s.check())
-        return r, (s.model() if r == 'sat' else None), time.time() - t0, s, 0
+    for n in sorted(nl, key=lambda n: env.vars[n][1] - env.vars[n][0]):
+        k = env.vars[n][1] - env.vars[n][0]
+        if k <= 256 and ncases * k <= 2 * MAX_SPLIT_CASES:
+            doms[n] = env.vars[n]
+            chosen.append(n)
+            ncases *= k
+        break
     import itertools
     per_case = 3000
     nsub = 0
-    verdict = 'unsat'
-    for combo in itertools.product(*[range(*doms[n]) for n in chosen]):
-        pins = [z3.Int(n) == v for n, v in zip(chosen, combo)]
-        sc = _mk_solver(ctx, goal, n_pc, n_assm, per_case, list(pins) + list(lemmas))
-        rc = str(sc.check())
-        nsub += 1
-        if rc == 'sat':
-            return 'sat', sc.model(), time.time() - t0, sc, nsub
-        if rc != 'unsat':
-            verdict = 'unknown'
-        if (time.time() - t0) * 1000 > 2 * total:
-            verdict = 'unknown'
-            break
-    return verdict, None, time.time() - t0, s, nsub
+    verdict = 'unsat' if chosen else 'unknown'
+    if chosen:
+        for combo in itertools.product(*[range(*doms[n]) for n in chosen]):
+            pins = [z3.Int(n) == v for n, v in zip(chosen, combo)]
+            sc = _mk_solver(ctx, goal, n_pc, n_assm, per_case, list(pins) + list(lemmas))
+            rc = str(sc.check())
+            nsub += 1
+            if rc == 'sat':
+                return 'sat', sc.model(), time.time() - t0, sc, nsub
+            if rc != 'unsat':
+                verdict = 'unknown'
+            if (time.time() - t0) * 1000 > total:
+                verdict = 'unknown'
+                break
+    if verdict == 'unsat':
+        return verdict, None, time.time() - t0, s, nsub
+    if env is not None:
+        got = bv_route(min(total, 20000))
+        if got:
+            return got
+    r = str(s.check())      # long plain attempt
+    return r, (s.model() if r == 'sat' else None), time.time() - t0, s, nsub
 
 
 def run_sym(fn, params=None, seed=0, max_paths=5000, n_validate=2, goal_timeout_ms=None,
@@ -413,6 +449,8 @@ def run_sym(fn, params=None, seed=0, max_paths=5000, n_validate=2, goal_timeout_
             res['bv_queries'] = res.get('bv_queries', 0) + (1 if nsub == -1 else 0)
             res['goals'] += 1
             res['solver_time'] += dt
+            if dt > 1.5:
+                res.setdefault('slow_goals', []).append((label, round(dt, 2), r))
             res[r] = res.get(r, 0) + 1
             if len(res['samples']) < 2:
                 smt = s.to_smt2()
@@ -488,6 +526,102 @@ def _witness(ctx, goal, n_pc, n_assm, env, rnd, tries=300):
             if str(s.check()) == 'sat':
                 return vals
     return None
+
+
+def _abstraction_unsat(assertions, env, ctx, timeout_ms=2000):
+    """Monomial abstraction: every product of two or more non-constant factors becomes a fresh integer variable that keeps
+    only the interval implied by the factors' ranges.  The abstraction has more models than the original, so 'unsat' for it
+    is 'unsat' for the original (anything else is inconclusive).  Decides obligations in which only the range of a product
+    matters (truncation of a fixed-point product against the exact product) by linear arithmetic, insensitive to machine speed."""
+    import z3
+    bounds = {n: (lo, hi - 1) for n, (lo, hi) in env.vars.items()}
+    bounds.update({n: b for n, b in ctx.aux_bounds.items()})
+    cache, monos = {}, {}
+
+    def iv(e):
+        if z3.is_int_value(e):
+            v = e.as_long()
+            return (v, v)
+        if z3.is_const(e) and e.decl().kind() == z3.Z3_OP_UNINTERPRETED:
+            b = bounds.get(str(e), (None, None))
+            return b if b is not None else (None, None)
+        if z3.is_app(e) and e.decl().kind() == z3.Z3_OP_ITE:
+            a, b = iv(e.arg(1)), iv(e.arg(2))
+            if None in a or None in b:
+                return (None, None)
+            return (min(a[0], b[0]), max(a[1], b[1]))
+        if z3.is_app(e) and e.decl().kind() == z3.Z3_OP_MOD and z3.is_int_value(e.arg(1)) and e.arg(1).as_long() > 0:
+            return (0, e.arg(1).as_long() - 1)
+        return (None, None)
+
+    def walk(e):
+        k = e.get_id()
+        if k in cache:
+            return cache[k][0]
+        if z3.is_app(e) and e.num_args() > 0:
+            ch = [walk(c) for c in e.children()]
+            if e.decl().kind() == z3.Z3_OP_MUL and z3.is_int(e):
+                fac = [c for c in ch if not z3.is_int_value(c)]
+                if len(fac) >= 2:
+                    coef = 1
+                    for c in ch:
+                        if z3.is_int_value(c):
+                            coef *= c.as_long()
+                    key = tuple(sorted(c.get_id() for c in fac))
+                    if key not in monos:
+                        lo, hi = 1, 1
+                        ok = True
+                        for c in fac:
+                            a = iv(c)
+                            if None in a:
+                                ok = False
+                                break
+                            cs = [lo * a[0], lo * a[1], hi * a[0], hi * a[1]]
+                            lo, hi = min(cs), max(cs)
+                        monos[key] = (z3.Int(f'mono!{len(monos)}'), (lo, hi) if ok else None, fac)
+                    r = monos[key][0] * coef if coef != 1 else monos[key][0]
+                    cache[k] = (r, e)
+                    return r
+            try:
+                r = e.decl()(*ch)
+            except Exception:
+                r = e
+        else:
+            r = e
+        cache[k] = (r, e)
+        return r
+    try:
+        abstracted = [walk(a) for a in assertions]
+    except Exception:
+        return False
+    if not monos:
+        return False
+    s2 = z3.Solver()
+    s2.set('timeout', timeout_ms)
+    s2.add(*abstracted)
+    for v, b, _ in monos.values():
+        if b is not None:
+            s2.add(v >= b[0], v <= b[1])
+    return str(s2.check()) == 'unsat'
+
+
+def _nonlinear_vars(e):
+    """names of variables that occur as a factor of a product with at least two non-constant factors."""
+    import z3
+    seen, out, todo = set(), set(), [e]
+    while todo:
+        x = todo.pop()
+        if x.get_id() in seen:
+            continue
+        seen.add(x.get_id())
+        if z3.is_app(x) and x.decl().kind() == z3.Z3_OP_MUL:
+            fac = [c for c in x.children() if not z3.is_int_value(c)]
+            if len(fac) >= 2:
+                for c in fac:
+                    if z3.is_const(c) and c.decl().kind() == z3.Z3_OP_UNINTERPRETED:
+                        out.add(str(c))
+        todo.extend(x.children())
+    return out
 
 
 def _free_vars(e):
